@@ -296,6 +296,10 @@ func panicClass(msg string) string {
 		return "nil-dereference"
 	case strings.Contains(msg, "nil map"):
 		return "nil-map"
+	case strings.Contains(msg, "stack overflow"):
+		return "stack-overflow"
+	case strings.Contains(msg, "out of memory"):
+		return "out-of-memory"
 	case strings.HasPrefix(msg, "runtime error:"):
 		if len(msg) > 60 {
 			msg = msg[:60]
@@ -342,7 +346,10 @@ func judgeC20(prog string, r run.Result) c20Verdict {
 		class = panicClass(m[1])
 	} else if m := fatalRE.FindStringSubmatch(r.Stderr); m != nil {
 		crash = true
-		class = "fatal:" + panicClass(m[1])
+		class = panicClass(m[1])
+		if class == "explicit-panic" {
+			class = "fatal-error"
+		}
 	} else if gorouRE.MatchString(r.Stderr) {
 		crash = true
 		class = "goroutine-dump"
